@@ -68,7 +68,7 @@ var c09Exempt = map[string]string{
 func C09(p *ir.Program, r *report.R) {
 	c := C{p, r}
 	r.Floor = 90
-	r.Explain = "Decided (journal discipline): every write to a journaled location (Account.{Nonce,Credits,Balance,Tokens,CodeHash}, stateObject.{code,dirtyCode,suicided,dirtyStorage}, StateDB.{refund,logs,logSize,preimages,stateObjects}) is in a raw setter, a journal revert method, a listed constructor/copier/finaliser, or is preceded on every path by journal.append of the entry type paired with that location; every call of a raw setter likewise; the previous value captured by each append is the current value of the same location; every journalEntry implementation is in the pairing table and its revert writes exactly its locations from its prev fields; dirtied() returns the account iff the location is per-account; RevertToSnapshot/journal.revert shape (downward loop to the snapshot index, truncation). Deep copy: deepCopy/StateDB.Copy assign every field (exemptions listed) and no map/slice field of the copy is the source's own value. ADDED after seeded-change testing: Dirty reference counts: journal.dirties is written only by append/dirty (increment by one) and revert (decrement by one, delete only under count == 0 after the decrement). Rounds 4-5: the check state is read under the state lock; CopyTrie copies the backing trie and never the source. NOT decided: value-level equality over nested snapshot histories; trie-level copy independence (CopyTrie)."
+	r.Explain = "Decided (journal discipline): every write to a journaled location (Account.{Nonce,Credits,Balance,Tokens,CodeHash}, stateObject.{code,dirtyCode,suicided,dirtyStorage}, StateDB.{refund,logs,logSize,preimages,stateObjects}) is in a raw setter, a journal revert method, a listed constructor/copier/finaliser, or is preceded on every path by journal.append of the entry type paired with that location; every call of a raw setter likewise; the previous value captured by each append is the current value of the same location; every journalEntry implementation is in the pairing table and its revert writes exactly its locations from its prev fields; dirtied() returns the account iff the location is per-account; RevertToSnapshot/journal.revert shape (downward loop to the snapshot index, truncation). Deep copy: deepCopy/StateDB.Copy assign every field (exemptions listed) and no map/slice field of the copy is the source's own value. ADDED after seeded-change testing: Dirty reference counts: journal.dirties is written only by append/dirty (increment by one) and revert (decrement by one, delete only under count == 0 after the decrement). Rounds 4-5: the check state is read under the state lock; CopyTrie copies the backing trie and never the source. Round 6: suicideChange.revert restores native/token per entry by its address, not by position. NOT decided: value-level equality over nested snapshot histories; trie-level copy independence (CopyTrie)."
 	r.Trusted = []string{"Database.CopyTrie", "big.Int values are replaced, never mutated in place (checked by K3 below for balances)"}
 
 	isEntry := func(t types.Type) bool { return false }
